@@ -39,6 +39,8 @@ struct DirTrack {
     files: BTreeMap<String, FileTrack>,
     dirops: Vec<DirOp>,
     level: usize,
+    /// Stable identity (index in `dirs` shifts when images are forgotten).
+    id: usize,
 }
 
 #[derive(Clone, Debug, PartialEq)]
@@ -188,7 +190,8 @@ impl SimDisk {
         st.img_counter += 1;
         let durable = self.scratch.join(format!("dur-{}", st.img_counter));
         copy_dir(dir, &durable);
-        st.dirs.push(DirTrack { live: dir.to_path_buf(), durable, files: BTreeMap::new(), dirops: Vec::new(), level });
+        let id = st.img_counter as usize;
+        st.dirs.push(DirTrack { live: dir.to_path_buf(), durable, files: BTreeMap::new(), dirops: Vec::new(), level, id });
     }
     pub fn forget(&self, dir: &Path) {
         let mut st = self.st.lock().unwrap();
@@ -242,6 +245,34 @@ impl SimDisk {
         *st.fired.entry("powerloss:image".into()).or_default() += 1;
         let _ = desc;
         Some(p)
+    }
+
+    /// Power-loss image at a quiescent point, queued for checking like the event-boundary ones.
+    pub fn fork_power_image_rec(&self, dir: &Path, pattern: u64, step: usize, site: &str) {
+        let mut st = self.st.lock().unwrap();
+        let Some(di) = st.dirs.iter().position(|d| d.live == dir) else { return };
+        st.img_counter += 1;
+        let p = self.scratch.join(format!("img-{}", st.img_counter));
+        let desc = Self::build_power_image(&st.dirs[di], &p, pattern);
+        for d in desc.split(',') { if let Some(k) = d.split(':').next() { if !k.is_empty() { Self::fire(&mut st, &format!("powerloss:{k}")); } } }
+        Self::fire(&mut st, "powerloss:image-after-return");
+        let level = st.dirs[di].level;
+        st.images.push(ImageRec { path: p, kind: ImageKind::Power, step, event: u64::MAX, site: site.to_string(), file: String::new(), level, desc });
+    }
+
+    pub fn dir_id(&self, dir: &Path) -> Option<usize> { self.st.lock().unwrap().dirs.iter().find(|d| d.live == dir).map(|d| d.id) }
+    pub fn main_dir_id(&self) -> usize { self.st.lock().unwrap().dirs.iter().find(|d| d.level == 0).map(|d| d.id).unwrap_or(usize::MAX) }
+
+    pub fn step_sites(&self) -> Vec<Vec<String>> {
+        let st = self.st.lock().unwrap();
+        let main = st.dirs.iter().find(|d| d.level == 0).map(|d| d.id).unwrap_or(usize::MAX);
+        let mut out: Vec<Vec<String>> = Vec::new();
+        for e in &st.trace {
+            if e.dir != main || matches!(e.kind, 'L' | 'U') { continue; }
+            while out.len() <= e.step { out.push(Vec::new()); }
+            out[e.step].push(format!("{}:{}:{}", e.site, e.file, e.len));
+        }
+        out
     }
 
     /// Durable shadow + a pattern-chosen subset of unsynced operations. Returns a description.
@@ -355,7 +386,7 @@ impl Observer for SimDisk {
             if let Op::Read { .. } = op { st.reads += 1; return Verdict::Proceed; }
             if matches!(op, Op::Lock(_) | Op::Unlock) {
                 let task = simrt::shuttle::thread::current().name().unwrap_or("main").to_string();
-                if st.keep_trace { let (seq, step, ev) = (st.seq, st.step, st.ev_in_step); st.trace.push(EventRec { seq, step, ev, dir: di, file: fname, site, kind: if matches!(op, Op::Unlock) { 'U' } else { 'L' }, off: 0, len: 0, task, failed: false }); }
+                if st.keep_trace { let (seq, step, ev) = (st.seq, st.step, st.ev_in_step); st.trace.push(EventRec { seq, step, ev, dir: st.dirs[di].id, file: fname, site, kind: if matches!(op, Op::Unlock) { 'U' } else { 'L' }, off: 0, len: 0, task, failed: false }); }
                 return Verdict::Proceed;
             }
             let level = st.dirs[di].level;
@@ -439,7 +470,8 @@ impl Observer for SimDisk {
             if st.keep_trace {
                 let task = simrt::shuttle::thread::current().name().unwrap_or("main").to_string();
                 let (seq, step) = (st.seq, st.step);
-                st.trace.push(EventRec { seq, step, ev, dir: di, file: fname.clone(), site, kind, off, len, task, failed });
+                let did = st.dirs[di].id;
+                st.trace.push(EventRec { seq, step, ev, dir: did, file: fname.clone(), site, kind, off, len, task, failed });
             }
             st.seq += 1;
             st.ev_in_step += 1;
